@@ -30,7 +30,7 @@ CONSTANTS Inits,      \* set of initial trees
           Paths,      \* set of dotted paths (sequences of keys) a call may assign / get may probe
           MaxAsg,     \* assignments per set call
           MaxDepth,   \* nesting depth
-          DictVals,   \* BOOLEAN: also assign mapping values
+          ValShapes,  \* kinds of values a call assigns: subset of {"leaf", "dict", "strz", "stra"}
           Export      \* BOOLEAN: fill `out`
 
 VARIABLES cfg, stack, last, cfg0, out
@@ -44,14 +44,21 @@ StdInits ==
     Dict(("a-b" :> Leaf(1))),
     Dict(("a_b" :> Dict([b |-> Leaf(1)]))),
     Dict([a |-> Dict(("a_b" :> Leaf(1)) @@ ("b" :> Leaf(2)))]),
-    Dict([a |-> Empty] @@ [c |-> Leaf(2)]) }
+    Dict([a |-> Empty] @@ [c |-> Leaf(2)]),
+    \* the prefix is a TEXT scalar: "zzz" contains no key, "abc" contains a, b, c, "a_b" contains a, b, a_b
+    Dict([a |-> Leaf(901)]),
+    Dict([a |-> Leaf(902)] @@ [c |-> Leaf(1)]),
+    Dict([a |-> Dict([b |-> Leaf(901)] @@ ("a_b" :> Leaf(903)))]) }
 
 StdPaths ==
   { <<"a">>, <<"a", "b">>, <<"a", "b", "c">>, <<"a-b">>, <<"a_b">>,
     <<"a", "a-b">>, <<"a", "a_b">>, <<"a-b", "b">>, <<"a_b", "b">>, <<"c">> }
 
-Shapes == IF DictVals THEN {"leaf", "dict"} ELSE {"leaf"}
-Val(sh, v) == IF sh = "leaf" THEN Leaf(v) ELSE Dict([b |-> Leaf(v)] @@ ("c-d" :> Leaf(v + 5)))
+Shapes == ValShapes
+Val(sh, v) == CASE sh = "leaf" -> Leaf(v)
+                [] sh = "dict" -> Dict([b |-> Leaf(v)] @@ ("c-d" :> Leaf(v + 5)))
+                [] sh = "strz" -> Leaf(901)           \* the text "zzz"
+                [] sh = "stra" -> Leaf(902)           \* the text "abc"
 
 \* values written at nesting depth d are 10d+1 .. 10d+MaxAsg (+5): different from every value
 \* an enclosing context or the initial tree (values < 10) can hold
@@ -92,7 +99,7 @@ Set(ch) ==
 Exit ==
   /\ last = OK /\ stack # <<>>
   /\ LET top == stack[Len(stack)]
-         c   == Rollback(cfg, top.rec)
+         c   == Rollback(cfg, top.rec).n
          st  == SubSeq(stack, 1, Len(stack) - 1)
      IN /\ cfg' = c
         /\ stack' = st
@@ -108,8 +115,12 @@ Next == AnySet \/ Exit
 ExitRestores == [][Len(stack') < Len(stack) => cfg' = stack[Len(stack)].snap]_vars
 \* ... for any nesting: once every context is left the initial configuration is back
 AllExitedRestores == stack = <<>> => cfg = cfg0
-\* a call that raises (no context is pushed) changes nothing
+\* ... and the rollback itself never raises
+ExitNeverRaises == [][Len(stack') < Len(stack) => Rollback(cfg, stack[Len(stack)].rec).ok]_vars
+\* a call that raises (no context is pushed) changes nothing - also when the dotted path ran
+\* through a text scalar, where _assign gets as far as the item assignment before it fails
 FailedSetIsAtomic == [][(Len(stack') = Len(stack) /\ last'.op = "fail") => cfg' = cfg]_vars
+FailedRollbackNeverRaises == [][last'.op = "fail" => FailedRollbackOK(cfg, last'.asgs)]_vars
 \* inside the context get returns the set values under either spelling
 GetSeesSet == [][Len(stack') > Len(stack) => GetSeesSetOK(cfg', stack'[Len(stack')].asgs)]_vars
 \* first spelling wins: a mapping never holds both spellings of a key
